@@ -255,9 +255,54 @@ def run_c09(rep, tier):
 
 
 # ------------------------------------------------------------------ C10
+
+C10_CH_SRC = '''
+import sys
+sys.path.insert(0, %(repo)r)
+import pyModelChecking.parser as PP
+from lark import exceptions as LE
+
+
+class _Stub(object):
+    # stands for the Lark object: fails at an arbitrary offset p of the input (lark's contract: 0 <= pos_in_stream <= len)
+    def __init__(self, p, token):
+        self.p, self.token = p, token
+
+    def parse(self, s):
+        cls = LE.UnexpectedToken if self.token else LE.UnexpectedCharacters
+        e = cls.__new__(cls)
+        e.pos_in_stream = self.p
+        raise e
+
+
+def position_within_input(s: str, p: int, token: bool) -> bool:
+    \"\"\"
+    pre: len(s) <= LEN and 0 <= p <= len(s)
+    post: __return__
+    \"\"\"
+    P = object.__new__(PP.Parser)
+    P._parser = _Stub(p, token)
+    try:
+        P(s)
+    except (PP.UnexpectedToken, PP.UnexpectedCharacters) as e:
+        return (type(e) is (PP.UnexpectedToken if token else PP.UnexpectedCharacters)) and isinstance(e.pos, int) and 0 <= e.pos <= len(s) and e.string == s
+    except Exception:
+        return False
+    return False
+
+
+def error_is_printable(s: str, p: int) -> bool:
+    \"\"\"
+    pre: len(s) <= LEN and 0 <= p <= len(s)
+    post: __return__
+    \"\"\"
+    e = PP.UnexpectedToken(s, p)
+    return isinstance(str(e), str) and 0 <= e.pos <= len(s)
+'''
+
 def run_c10(rep, tier):
     rep.assumptions += ['token level: a string is a sequence of <= L lexemes (L=4 quick, 5 thorough) from: every operator symbol incl. ~ | & -->, true, false, ( ), identifiers p and A1, the escaped string "s"; single spaces between lexemes',
-                        'character-level lexing (missing spaces, whitespace variants, escapes inside "...", non-ASCII) and longer strings are outside',
+                        'character-level lexing (missing spaces, escapes inside "...", non-ASCII) and longer strings are outside the automaton query; witnesses are replayed under 6 whitespace layouts (blank, newline, tab, CRLF, leading newlines, trailing tab); the error-position arithmetic is decided separately on a symbolic character string (CrossHair, Lark stubbed by its contract 0 <= pos_in_stream <= len)',
                         'documented grammar read in its most liberal concrete form (any parenthesisation, no precedence) and every identifier-shaped lexeme, keywords included, may be a proposition name']
     rep.cov['trusted_base'] = SAT_TRUSTED
     rep.cov['explanation'] = ('the LALR table and the contextual lexer decisions are extracted from the live Parser() of each logic on every run; the run of the parser loop on a symbolic lexeme string is a step-indexed transition '
@@ -295,6 +340,13 @@ def run_c10(rep, tier):
             body = ('import importlib\nM = importlib.import_module("pyModelChecking.%s")\ns = %r\ntry:\n    f = M.Parser()(s); print("parser returned", repr(f), type(f).__module__)\nexcept Exception as e:\n    print("parser raised", type(e).__name__, e)\n'
                     'print("VIOLATION of C10: automaton %s, real parser: %s %s")\nsys.exit(1)\n' % (t[0], pr['text'], pr['automaton'], pr['real_parser'], str(pr['detail']).replace('"', "'")))
             rep.violation('%s: %r automaton %s but real parser %s %s' % (key, pr['text'], pr['automaton'], pr['real_parser'], pr['detail']), write_replay('C10', body))
+    # the position arithmetic between Lark's error and the raised ParserError, on a symbolic input string (CrossHair)
+    from . import chair
+    LEN = 4 if tier == 'quick' else 6
+    chair.run(rep, 'C10', 'ch_c10', C10_CH_SRC.replace('LEN', str(LEN)),
+              {'position_within_input': 'for every string of <=%d characters (any characters) and every offset Lark may report, Parser.__call__ raises the matching ParserError class with 0 <= pos <= len(input) and the input unchanged' % LEN,
+               'error_is_printable': 'ParserError(s, p) keeps its position inside s and prints'}, tier)
+    rep.cov['bounds'].update(crosshair_string_length=LEN)
     # cross-feeding: valid strings of each logic given to the other parsers, natively (exploration)
     cross = cross_feed()
     rep.cov['traces_validated_against_impl'] += cross['n']
